@@ -196,9 +196,9 @@ static long long g_processes = 0, g_calls_judged = 0, g_viol_histories = 0;
 template <class H>
 void run_history(Pool<H>& p, const std::vector<CallDesc>& calls, const std::vector<int>& h, const std::string& hname, bool throwing, const std::string& pool_arg)
 {
-    std::string hs;
-    for (size_t i = 0; i < h.size(); ++i) hs += std::string(i ? ";" : "") + calls[size_t(h[i])].name;
-    const std::vector<std::string> rp{"--vis-replay", hname, hs, "--pool", pool_arg};
+    // a finding at call #i is reported with the history up to that call (a fresh process per history: the prefix alone reproduces it)
+    auto upto = [&](size_t n) { std::string hs; for (size_t i = 0; i < n && i < h.size(); ++i) hs += std::string(i ? ";" : "") + calls[size_t(h[i])].name; return hs; };
+    auto rp = [&](const std::string& hs) { return std::vector<std::string>{"--vis-replay", hname, hs, "--pool", pool_arg}; };
     int fd[2];
     if (pipe(fd) != 0) { std::printf("pipe failed\n"); std::exit(5); }
     std::fflush(stdout);
@@ -254,7 +254,8 @@ void run_history(Pool<H>& p, const std::vector<CallDesc>& calls, const std::vect
             int i = atoi(line.c_str() + 2);
             std::string kind = line.substr(s1 + 1, s2 - s1 - 1), msg = line.substr(s2 + 1);
             any = true;
-            vf::violation("C17/vis-hist/" + hname + "/" + kind, "fresh process, history of accept calls [" + hs + "]: call #" + str(i + 1) + " " + calls[size_t(h[size_t(i)])].name + ": " + msg, rp);
+            const std::string hs = upto(size_t(i) + 1);
+            vf::violation("C17/vis-hist/" + hname + "/" + kind, "fresh process, history of accept calls [" + hs + "]: call #" + str(i + 1) + " " + calls[size_t(h[size_t(i)])].name + ": " + msg, rp(hs));
         }
     }
     if (!(WIFEXITED(status) && WEXITSTATUS(status) == 0) || done != int(h.size()) - 1)
@@ -267,7 +268,8 @@ void run_history(Pool<H>& p, const std::vector<CallDesc>& calls, const std::vect
             const CallDesc& c = calls[size_t(h[size_t(started)])];
             where = "call #" + str(started + 1) + " " + c.name + " (" + expect_s(p.vis[size_t(c.o)], c.t, throwing) + ")";
         }
-        vf::violation("C17/vis-hist/" + hname + "/crash", "fresh process, history of accept calls [" + hs + "]: the process " + how + " while executing " + where, rp);
+        const std::string hs = upto(started > done && started >= 0 ? size_t(started) + 1 : h.size());
+        vf::violation("C17/vis-hist/" + hname + "/crash", "fresh process, history of accept calls [" + hs + "]: the process " + how + " while executing " + where, rp(hs));
     }
     if (any) ++g_viol_histories;
 }
